@@ -583,4 +583,179 @@ example : (PyIRRd.runCtor { Gen.PyIRRd.prog.init with sets := Gen.PyIRRd.prog.in
 example : (PyIRRd.runCtor { Gen.PyIRRd.prog.init with sets := [(.md .kernelExtensions, .display .emptyDict)] }
     [true, true] {}).toOption = none := by decide
 
+/-! ### translation tie of the construct DECLARATIONS (`kd_header_v3`, `kd_v3_threadmap`, `kd_v3_additional_data`)
+
+The reader tie above keeps `Aligned(8, kd_header_v3).parse_stream(reader)`, `kd_v3_threadmap.parse_stream(reader)` and
+`kd_v3_additional_data.parse_stream(reader)` as primitives.  What these names ARE — the module-level construct
+expressions — is translated too (`tools/gen_pyir_cn.py` → `Gen/PyIRCn`) and run by `PyIRCn.Con.parse` over the same
+reader monad and the same combinators of `Model/Construct` (see `C02.kd_threadmap_decl_eq_model`,
+`C02.kd_header_v2_decl_eq_model` for the version-2 half). -/
+
+/-- **The translated declarations are the ones the lemmas were proved for** (`Spec/PyIRCnExpected`, quoting the Python),
+    `BplistAdapter._decode` returns `plistlib.loads(obj)`, and the translator met nothing outside the subset. -/
+theorem decl_source_is_expected_ir : Gen.PyIRCn.module = PyIRCn.Expected.module ∧ Gen.PyIRCn.notes = [] := by decide
+
+/-- **`kd_header_v3`, interpreted, is `headerV3Inner`** — for EVERY reader state and whatever `plistlib.loads` does
+    (`env.plist`): the declaration bound to `kd_header_v3`, run by `Con.parse` and read as (the twelve integer fields in
+    order, the cpu_info payload), gives the same value or the same exception (StreamError of a short field, the
+    model's `ValueError` of a payload that does not load) and the same reader (position, read counters).  The
+    DECLARATION carries no alignment: `Aligned(8, …)` is applied at the call site in `parse_v3` (translated by the
+    reader tie, `Prim.headerV3`); see `header_v3_call_site`. -/
+theorem kd_header_v3_decl_eq_model (env : PyIRCn.Env) (ctx : List (String × PyIRCn.CVal)) (r : Reader) :
+    PyIRCn.project PyIRCn.CVal.toHeaderV3 ((Gen.PyIRCn.module.decl "kd_header_v3").parse env ctx) r =
+      headerV3Inner env.plist r := by
+  rw [decl_source_is_expected_ir.1, PyIRCn.decl_kd_header_v3, PyIRCn.project_kd_header_v3]
+
+/-- the call site `Aligned(8, kd_header_v3).parse_stream(reader)`: the model's `headerV3` is `aligned 8` around the
+    interpreted declaration. -/
+theorem header_v3_call_site (env : PyIRCn.Env) (ctx : List (String × PyIRCn.CVal)) :
+    headerV3 env.plist =
+      aligned 8 (PyIRCn.project PyIRCn.CVal.toHeaderV3 ((Gen.PyIRCn.module.decl "kd_header_v3").parse env ctx)) := by
+  have h : PyIRCn.project PyIRCn.CVal.toHeaderV3 ((Gen.PyIRCn.module.decl "kd_header_v3").parse env ctx) =
+      headerV3Inner env.plist := funext (kd_header_v3_decl_eq_model env ctx)
+  rw [h]; rfl
+
+/-- **`kd_v3_threadmap`, interpreted, is the thread-map reader of `parseV3`** (`prefixedBytes` then the pure
+    `greedyEntries` of the payload: the last two steps of `threadmapV3`) — for EVERY reader state, and for every fuel
+    policy that gives a range on a private sub-stream of `n` bytes at least `n / 32 + 1` iterations (both policies used by
+    the other declaration theorems do: `n + 1` and `n / 16 + 2`): the `Prefixed(Int64ul, …)` length and payload are read
+    with the model's two reads, `GreedyRange(kd_threadmap)` runs on the private sub-stream — so the hand model's PURE
+    recursion over 32-byte slices (`greedyEntriesAux`: stop at the first entry that is short, has no NUL or is not UTF-8,
+    drop it and everything behind it) is a THEOREM about the interpreted `GreedyRange` / `Struct` / `FixedSized` /
+    `CString` (`PyIRCn.greedyRange_threadEntry`), no longer its definition. -/
+theorem kd_v3_threadmap_decl_eq_model (env : PyIRCn.Env) (ctx : List (String × PyIRCn.CVal))
+    (hf : ∀ b : Bytes, b.length / 32 + 1 ≤ env.fuel (Reader.ofBytes b)) (r : Reader) :
+    PyIRCn.project PyIRCn.CVal.toThreadmapV3 ((Gen.PyIRCn.module.decl "kd_v3_threadmap").parse env ctx) r =
+      (prefixedBytes >>= fun payload => pure (greedyEntries payload)) r := by
+  rw [decl_source_is_expected_ir.1, PyIRCn.decl_kd_v3_threadmap, PyIRCn.project_kd_v3_threadmap env ctx hf]
+
+/-- the call site in `parse_v3`: the model's `threadmapV3` is the two scans followed by the interpreted declaration. -/
+theorem threadmap_v3_call_site (env : PyIRCn.Env) (ctx : List (String × PyIRCn.CVal))
+    (hf : ∀ b : Bytes, b.length / 32 + 1 ≤ env.fuel (Reader.ofBytes b)) :
+    threadmapV3 = (do
+      let _ ← readPlain (8 - Gen.Consts.RAW_VERSION_SIZE)
+      seekUntil Gen.Consts.TRACEV3_STACKSHOT_END
+      seekUntil Gen.Consts.TRACEV3_THREADMAP_TAG
+      PyIRCn.project PyIRCn.CVal.toThreadmapV3 ((Gen.PyIRCn.module.decl "kd_v3_threadmap").parse env ctx)) := by
+  have h : PyIRCn.project PyIRCn.CVal.toThreadmapV3 ((Gen.PyIRCn.module.decl "kd_v3_threadmap").parse env ctx) =
+      (prefixedBytes >>= fun payload => pure (greedyEntries payload)) :=
+    funext (kd_v3_threadmap_decl_eq_model env ctx hf)
+  rw [h]; rfl
+
+/-- both fuel policies of the declaration theorems satisfy the hypothesis -/
+example (b : Bytes) : b.length / 32 + 1 ≤ (fun r : Reader => r.rest.length + 1) (Reader.ofBytes b) := by
+  show b.length / 32 + 1 ≤ (List.drop 0 b).length + 1
+  simp only [List.drop_zero]; omega
+
+example (b : Bytes) : b.length / 32 + 1 ≤ (fun r : Reader => r.rest.length / 16 + 2) (Reader.ofBytes b) := by
+  show b.length / 32 + 1 ≤ (List.drop 0 b).length / 16 + 2
+  simp only [List.drop_zero]; omega
+
+/-- non-vacuity: a 70-byte payload — one good entry, one entry whose name has no NUL, 6 more bytes: one entry is
+    delivered, the reader stands behind the WHOLE payload (position 78, two reads) -/
+example :
+    (match PyIRCn.project PyIRCn.CVal.toThreadmapV3
+        ((Gen.PyIRCn.module.decl "kd_v3_threadmap").parse ⟨EndToEnd.noPlist, fun r => r.rest.length / 16 + 2⟩ [])
+        (Reader.ofBytes ([70, 0, 0, 0, 0, 0, 0, 0] ++ C02.exEntry 5 9 ([0x61, 0] ++ List.replicate 18 1) ++
+          C02.exEntry 6 9 (List.replicate 20 0x41) ++ [1, 2, 3, 4, 5, 6] ++ [0xaa])) with
+     | (.ok tm, r) => some (tm, r.pos, r.calls)
+     | (.error _, _) => none) = some ([⟨5, 9, [0x61]⟩], 78, 2) := by decide +kernel
+
+/-- **`kd_v3_additional_data`, interpreted, is the greedy range of `blockElem`** — for EVERY reader state: the
+    declaration bound to `kd_v3_additional_data` (`GreedyRange(Struct('tag' / Bytes(8), 'data' / Select(Aligned(8,
+    Prefixed(Int64ul, GreedyBytes)), Prefixed(Int64ul, GreedyBytes))))`), run by `Con.parse` and read as the list of
+    (tag, data) pairs, is `greedyRange blockElem` with the fuel the policy gives at the reader it starts on: the same
+    blocks, the same reader (the aligned alternative first, the rewind and the unaligned alternative when its padding
+    read is short, the rewind of the whole range behind the last good block).  With the policy of `tailV3`
+    (`rest / 16 + 2`) this is literally the term `tailV3` / the reader tie's primitive use. -/
+theorem kd_v3_additional_data_decl_eq_model (env : PyIRCn.Env) (ctx : List (String × PyIRCn.CVal)) (r : Reader) :
+    PyIRCn.project PyIRCn.CVal.toBlocks ((Gen.PyIRCn.module.decl "kd_v3_additional_data").parse env ctx) r =
+      greedyRange blockElem (env.fuel r) r := by
+  rw [decl_source_is_expected_ir.1, PyIRCn.decl_kd_v3_additional_data, PyIRCn.project_kd_v3_additional_data]
+
+/-- one element of the range: the interpreted `Struct` is `blockElem` (as a `Container` of `tag` and `data`). -/
+theorem block_struct_decl_value (env : PyIRCn.Env) (ctx : List (String × PyIRCn.CVal)) :
+    PyIRCn.Expected.blockStruct.parse env ctx = PyIRCn.mapRM PyIRCn.blockToCVal blockElem :=
+  PyIRCn.parse_blockStruct env ctx
+
+/-- the fuel policy of the version-3 tie: what `tailV3` gives its range; on a private sub-stream of `n` bytes it is
+    `n / 16 + 2 ≥ n / 32 + 1`. -/
+def declEnv (plist : Bytes → Option PView) : PyIRCn.Env := ⟨plist, fun r => r.rest.length / 16 + 2⟩
+
+theorem declEnv_fuel (plist : Bytes → Option PView) (b : Bytes) :
+    b.length / 32 + 1 ≤ (declEnv plist).fuel (Reader.ofBytes b) := by
+  show b.length / 32 + 1 ≤ (List.drop 0 b).length / 16 + 2
+  simp only [List.drop_zero]; omega
+
+/-- **`parse_v3` rests on the declarations**: the hand model `parseV3` (= the interpreted `parse_v3`, by
+    `parse_is_interpreted_source`) with its three construct primitives replaced by the interpreted declarations —
+    `Aligned(8, kd_header_v3)`, `kd_v3_threadmap` behind the two scans, `kd_v3_additional_data` behind
+    `reader.seek(-8, 1)`. -/
+theorem parse_v3_rests_on_declarations {ε : Type} (plist : Bytes → Option PView) (dec : Bytes → Except PyErr ε)
+    (prior : PState) (r : Reader) :
+    parseV3 plist dec prior r =
+      match aligned 8 (PyIRCn.project PyIRCn.CVal.toHeaderV3
+          ((Gen.PyIRCn.module.decl "kd_header_v3").parse (declEnv plist) [])) r with
+      | (.error e, r1) => ⟨[], some e, prior.tables, prior.tables, prior.md, r1⟩
+      | (.ok h, r1) =>
+        match (do
+            let _ ← readPlain (8 - Gen.Consts.RAW_VERSION_SIZE)
+            seekUntil Gen.Consts.TRACEV3_STACKSHOT_END
+            seekUntil Gen.Consts.TRACEV3_THREADMAP_TAG
+            PyIRCn.project PyIRCn.CVal.toThreadmapV3
+              ((Gen.PyIRCn.module.decl "kd_v3_threadmap").parse (declEnv plist) [])) r1 with
+        | (.error e, r2) => ⟨[], some e, prior.tables, prior.tables, { prior.md with header := some h }, r2⟩
+        | (.ok tm, r2) =>
+          let t := setThreadMap prior.tables tm
+          let q := chunkLoop dec (r2.rest.length / 16 + 2) r2
+          match q.2.1 with
+          | some e => ⟨q.1.map .ev, some e, t, t, { prior.md with header := some h }, q.2.2⟩
+          | none =>
+            match PyIRCn.project PyIRCn.CVal.toBlocks
+                ((Gen.PyIRCn.module.decl "kd_v3_additional_data").parse (declEnv plist) [])
+                (q.2.2.seekTo (q.2.2.pos - 8)) with
+            | (.error e, r4) => ⟨q.1.map .ev, some e, t, t, { prior.md with header := some h }, r4⟩
+            | (.ok blocks, r4) => tailOfBlocks plist q.1 t { prior.md with header := some h } blocks r4 := by
+  have h1 := header_v3_call_site (declEnv plist) []
+  have h2 := threadmap_v3_call_site (declEnv plist) [] (declEnv_fuel plist)
+  rw [← h1, ← h2]
+  simp only [kd_v3_additional_data_decl_eq_model]
+  rfl
+
+/-- non-vacuity: two blocks — the first aligned (5-byte payload + 3 bytes of alignment), the second at the end of the
+    stream with no room for its alignment (the `Select` falls back to the unaligned alternative) — then 3 stray bytes:
+    both blocks are delivered and the reader is rewound behind the second one (position 42). -/
+example :
+    (match PyIRCn.project PyIRCn.CVal.toBlocks
+        ((Gen.PyIRCn.module.decl "kd_v3_additional_data").parse (declEnv EndToEnd.noPlist) [])
+        (Reader.ofBytes ([1, 2, 3, 4, 5, 6, 7, 8] ++ [5, 0, 0, 0, 0, 0, 0, 0] ++ [9, 9, 9, 9, 9] ++ [0, 0, 0] ++
+          [8, 7, 6, 5, 4, 3, 2, 1] ++ [2, 0, 0, 0, 0, 0, 0, 0] ++ [0xaa, 0xbb] ++ [1, 2, 3])) with
+     | (.ok bs, r) => some (bs, r.pos)
+     | (.error _, _) => none) =
+    some ([([1, 2, 3, 4, 5, 6, 7, 8], [9, 9, 9, 9, 9]), ([8, 7, 6, 5, 4, 3, 2, 1], [0xaa, 0xbb])], 42) := by
+  decide +kernel
+
+/-- twelve fields 1 … 12, a 3-byte payload, then one more byte -/
+def exDeclHeaderV3 : Bytes :=
+  [1, 0, 0, 0] ++ [2, 0, 0, 0] ++ [3, 0, 0, 0, 0, 0, 0, 0] ++ [4, 0, 0, 0] ++ [5, 0, 0, 0] ++ [6, 0, 0, 0, 0, 0, 0, 0] ++
+  [7, 0, 0, 0, 0, 0, 0, 0] ++ [8, 0, 0, 0] ++ [9, 0, 0, 0] ++ [10, 0, 0, 0] ++ [11, 0, 0, 0] ++ [12, 1, 0, 0] ++
+  [3, 0, 0, 0, 0, 0, 0, 0] ++ [0x62, 0x70, 0x6c] ++ [0xaa]
+
+/-- non-vacuity: the generated `kd_header_v3`, interpreted, on concrete bytes, with a `plistlib.loads` that accepts
+    exactly the payload `bpl`: the twelve integers (the last one 0x10c), the payload, 14 reads, position 71 … -/
+example :
+    (match PyIRCn.project PyIRCn.CVal.toHeaderV3
+        ((Gen.PyIRCn.module.decl "kd_header_v3").parse
+          ⟨fun p => if p = [0x62, 0x70, 0x6c] then some ⟨true, [], none, none, none⟩ else none, fun _ => 0⟩ [])
+        (Reader.ofBytes exDeclHeaderV3) with
+     | (.ok h, r) => some (h, r.pos, r.calls)
+     | (.error _, _) => none) =
+    some (([1, 2, 3, 4, 5, 6, 7, 8, 9, 10, 11, 0x10c], [0x62, 0x70, 0x6c]), 71, 14) := by decide +kernel
+
+/-- … and when `plistlib.loads` rejects the payload: the model's ValueError, the payload consumed -/
+example :
+    (match PyIRCn.project PyIRCn.CVal.toHeaderV3
+        ((Gen.PyIRCn.module.decl "kd_header_v3").parse ⟨EndToEnd.noPlist, fun _ => 0⟩ []) (Reader.ofBytes exDeclHeaderV3) with
+     | (x, r) => (PyIRCn.outcome x, r.pos)) = ((none, some .valueError), 71) := by decide +kernel
+
 end KdVerif.C03
